@@ -682,7 +682,8 @@ Definition helper_deposit (v : ver) (c : cfg) (st : state) (user : Z) (fs al : l
   do b5 <- helper_forward b4 a1 d1;
   (* the pair mints the LP tokens to the helper *)
   let lpb := b5 HELPER (c_lp c) + minted in
-  do _ <- ensure (lpb <? P128) E_OTHER;
+  (* balances are Uint128: unsigned, below 2^128 *)
+  do _ <- ensure ((0 <=? lpb) && (lpb <? P128)) E_OTHER;
   let b6 := upd_bal b5 HELPER (c_lp c) lpb in
   (* reply: the whole LP balance of the helper is staked for the user *)
   do _ <- ensure (positions_query_ok st user) E_OTHER;
